@@ -56,7 +56,7 @@ func resolveIdle(p *core.Prog) []*idleRoles {
 		}
 		// lock helpers
 		for i := 0; i < st.NumMethods(); i++ {
-			fn := p.SSA.FuncValue(st.Method(i))
+			fn := p.FuncOf(st.Method(i))
 			if fn == nil || fn.Blocks == nil || len(fn.Params) != 2 {
 				continue
 			}
@@ -85,7 +85,7 @@ func resolveIdle(p *core.Prog) []*idleRoles {
 		}
 		// callback = function handed to time.AfterFunc in a method of st
 		for i := 0; i < st.NumMethods(); i++ {
-			fn := p.SSA.FuncValue(st.Method(i))
+			fn := p.FuncOf(st.Method(i))
 			if fn == nil {
 				continue
 			}
@@ -170,19 +170,14 @@ func runC20(c *core.Ctx) {
 
 		// ---- R1
 		c.Instance("R1")
-		var expiredCell, ctxCell *ssa.Alloc
+		// the expiry value and the cached-context value: either SSA values used directly, or values parked in a
+		// local cell (a variable assigned inside a locked closure and read after it)
+		expiredSrc := map[ssa.Value]bool{}
+		ctxSrc := map[ssa.Value]bool{}
 		var cmpOK bool
 		for _, f := range core.WithAnon(cb) {
 			core.AllInstrs(f, func(in ssa.Instruction) {
-				st, ok := in.(*ssa.Store)
-				if !ok {
-					return
-				}
-				cell := cellOf(st.Addr, f)
-				if cell == nil {
-					return
-				}
-				if b, ok := st.Val.(*ssa.BinOp); ok && b.Op == token.GEQ {
+				if b, ok := in.(*ssa.BinOp); ok && b.Op == token.GEQ {
 					// time.Since(last) >= idle  |  time.Now().Sub(last) >= idle
 					el := false
 					if call, ok := b.X.(*ssa.Call); ok {
@@ -194,13 +189,33 @@ func runC20(c *core.Ctx) {
 						}
 					}
 					if el && isLoadOf(b.Y, ir.idleF) {
-						expiredCell, cmpOK = cell, true
+						expiredSrc[b], cmpOK = true, true
 					} else if el || isLoadOf(b.Y, ir.idleF) {
-						expiredCell = cell
+						expiredSrc[b] = true
 					}
 				}
-				if isLoadOf(st.Val, ir.ctxF) {
-					ctxCell = cell
+				if u, ok := in.(*ssa.UnOp); ok && u.Op == token.MUL {
+					if fv, _ := core.FieldOf(u); fv == ir.ctxF {
+						ctxSrc[u] = true
+					}
+				}
+			})
+		}
+		for _, f := range core.WithAnon(cb) {
+			core.AllInstrs(f, func(in ssa.Instruction) {
+				st, ok := in.(*ssa.Store)
+				if !ok {
+					return
+				}
+				cell := cellOf(st.Addr, f)
+				if cell == nil {
+					return
+				}
+				if expiredSrc[core.Unwrap(st.Val)] {
+					expiredSrc[cell] = true
+				}
+				if ctxSrc[core.Unwrap(st.Val)] {
+					ctxSrc[cell] = true
 				}
 			})
 		}
@@ -237,13 +252,13 @@ func runC20(c *core.Ctx) {
 		for _, tr := range triggers {
 			top, _ := liftToFunc(p, tr, cb)
 			name := tn + "/trigger"
-			if top == nil || expiredCell == nil || ctxCell == nil {
+			if top == nil || len(expiredSrc) == 0 || len(ctxSrc) == 0 {
 				c.Bad("R1", name+"/guarded", p.InstrPos(tr), "the elapsed-time comparison (time.Since(last) >= idleTime) or the cached-context read feeding the trigger was not found in the callback")
 				continue
 			}
 			c.Check(cmpOK, "R1", name+"/comparison", p.InstrPos(tr), "expiry = time.Since(lastActivity) >= idleTime on the handler's own fields", "the expiry test does not compare the time since the handler's last-activity field with its idle-duration field")
-			gExp := guardedByCell(cb, top, expiredCell, false)
-			gCtx := guardedByCell(cb, top, ctxCell, true)
+			gExp := guardedBySrc(cb, top, expiredSrc, false)
+			gCtx := guardedBySrc(cb, top, ctxSrc, true)
 			c.Check(gExp, "R1", name+"/under-expired", p.InstrPos(tr), "trigger only on the true side of the expiry test", "the idle event can be triggered although the idle period has not elapsed (trigger not guarded by the expiry test)")
 			c.Check(gCtx, "R1", name+"/under-context", p.InstrPos(tr), "trigger only when the cached context is non-nil", "the idle event can be triggered after inactive cleared the cached context (no nil test)")
 			// on that very context
@@ -253,8 +268,12 @@ func runC20(c *core.Ctx) {
 				cands = core.CallCommon(tr).Args
 			}
 			for _, cv := range cands {
-				if ld, ok := core.Unwrap(cv).(*ssa.UnOp); ok {
-					if cellOf(ld.X, tr.Parent()) == ctxCell {
+				cv = core.Unwrap(cv)
+				if ctxSrc[cv] {
+					recvOK = true
+				}
+				if ld, ok := cv.(*ssa.UnOp); ok && ld.Op == token.MUL {
+					if cell := cellOf(ld.X, tr.Parent()); cell != nil && ctxSrc[cell] {
 						recvOK = true
 					}
 				}
@@ -397,7 +416,7 @@ func runC20(c *core.Ctx) {
 
 		// ---- R6 lock discipline
 		for i := 0; i < ir.t.NumMethods(); i++ {
-			m := p.SSA.FuncValue(ir.t.Method(i))
+			m := p.FuncOf(ir.t.Method(i))
 			if m == nil || m.Blocks == nil {
 				continue
 			}
@@ -506,23 +525,42 @@ func liftToFunc(p *core.Prog, in ssa.Instruction, top *ssa.Function) (ssa.Instru
 	return nil, false
 }
 
-// guardedByCell: `in` (in fn) runs only when load(cell) is true (or != nil when nilTest).
-func guardedByCell(fn *ssa.Function, in ssa.Instruction, cell *ssa.Alloc, nilTest bool) bool {
+// guardedBySrc: `in` (in fn) runs only when a source value (or the content of a source cell) is true
+// (or != nil when nilTest).
+func guardedBySrc(fn *ssa.Function, in ssa.Instruction, src map[ssa.Value]bool, nilTest bool) bool {
 	for _, ifi := range core.Ifs(fn) {
 		cd := core.CondOf(ifi)
-		isCellLoad := func(v ssa.Value) bool {
-			ld, ok := core.Unwrap(v).(*ssa.UnOp)
-			return ok && ld.Op == token.MUL && ld.X == ssa.Value(cell)
+		isSrc := func(v ssa.Value) bool {
+			v = core.Unwrap(v)
+			if src[v] {
+				return true
+			}
+			ld, ok := v.(*ssa.UnOp)
+			return ok && ld.Op == token.MUL && src[ld.X]
 		}
 		var succ *ssa.BasicBlock
-		if !nilTest && cd.Op == token.ILLEGAL && isCellLoad(cd.X) {
+		if !nilTest && cd.Op == token.ILLEGAL && isSrc(cd.X) {
 			succ = cd.True
+		}
+		if !nilTest {
+			// the comparison itself is the branch condition
+			raw := ifi.Cond
+			for {
+				if u, ok := raw.(*ssa.UnOp); ok && u.Op == token.NOT {
+					raw = u.X
+					continue
+				}
+				break
+			}
+			if src[raw] {
+				succ = cd.True
+			}
 		}
 		if nilTest && (cd.Op == token.NEQ || cd.Op == token.EQL) {
 			var other ssa.Value
-			if isCellLoad(cd.X) {
+			if isSrc(cd.X) {
 				other = cd.Y
-			} else if isCellLoad(cd.Y) {
+			} else if isSrc(cd.Y) {
 				other = cd.X
 			}
 			if other != nil && core.IsNilConst(other) {
